@@ -256,7 +256,10 @@ func (c *gengoCtx) Doc(typ types.Object) (Tags, []string) {
 	tags, doc := c.universe.Package(typ.Pkg().Path()).Doc(typ.Pos())
 
 	if len(doc) > 0 {
-		doc[0] = strings.TrimSpace(strings.TrimPrefix(doc[0], typ.Name()))
+		// strip the declared name only where it stands as a word of its own
+		if rest, ok := strings.CutPrefix(doc[0], typ.Name()); ok && (rest == "" || rest[0] == ' ') {
+			doc[0] = strings.TrimSpace(rest)
+		}
 		if len(doc[0]) == 0 {
 			doc = doc[1:]
 		}
